@@ -463,6 +463,15 @@ func (va *validAnalysis) recompute(fn *ssa.Function) bool {
 									ns.xform = u.why
 								}
 							}
+							if l == tTransformed && cc.StaticCallee().Name() != "ValidPath" && directGate(cc.StaticCallee(), ai) {
+								// the only validity gate the name ever meets is applied to the transformed value:
+								// path.Join/Clean turn "..", "a//b", "./x", "x/" into valid-looking paths
+								u.ok = false
+								u.why = fmt.Sprintf("transformed value derived from parameter %s is passed at %s to %s, whose validity check then sees the cleaned value, not the name: the parameter itself is never known valid", prm.Name(), va.p.Pos(x.Pos()), fname(cc.StaticCallee()))
+								if ns.xform == "" {
+									ns.xform = u.why
+								}
+							}
 							if cs[ai].pass {
 								if l == tTransformed {
 									u.ok = false
@@ -938,4 +947,23 @@ func nilReflecting(fn *ssa.Function) []int {
 	}
 	nilReflectMemo[fn] = out
 	return out
+}
+
+// directGate: callee applies the validity predicate to its parameter #ai itself (ValidPath(param)). A caller that
+// hands it a transformed value has its name validated only after the transformation.
+func directGate(callee *ssa.Function, ai int) bool {
+	if callee == nil || callee.Blocks == nil || ai >= len(callee.Params) {
+		return false
+	}
+	found := false
+	ssax.Instrs(callee, func(ins ssa.Instruction) {
+		cl, ok := ins.(*ssa.Call)
+		if !ok || len(cl.Call.Args) != 1 {
+			return
+		}
+		if c := ssax.StaticCallee(cl); c != nil && c.Name() == "ValidPath" && cl.Call.Args[0] == ssa.Value(callee.Params[ai]) {
+			found = true
+		}
+	})
+	return found
 }
